@@ -649,7 +649,7 @@ func init() {
 		}
 		return colTime2(r.Intn(7))
 	}, false)
-	modes["c13s"] = e2eMode("c13", func(r *rand.Rand) Col {
+	c13e2e := e2eMode("c13", func(r *rand.Rand) Col {
 		switch r.Intn(4) {
 		case 0:
 			return colVarchar(pick(r, 0, 1, 255, 256, 65535, r.Intn(65536)))
@@ -660,6 +660,46 @@ func init() {
 		}
 		return colGeometry(1 + r.Intn(4))
 	}, true)
+	modes["c13s"] = func(e *Env) {
+		c13e2e(e)
+		// streams whose last rows event ends with an empty value of every length-prefixed kind (its length prefix is the last
+		// thing in the event), with and without checksums
+		lastCols := []Col{colBlob(1), colBlob(2), colBlob(3), colBlob(4), colGeometry(3), colGeometry(4), colVarchar(255), colVarchar(256), colChar(255), colChar(256)}
+		for li, last := range lastCols {
+			for ci, cfg := range allCfgs() {
+				if (ci+li)%3 != 0 && !e.Thorough() {
+					continue
+				}
+				t := &Table{ID: uint64(900 + li), DB: "dv", Name: "tend" + itoa(li), Cols: []Col{colInt("long", false), last}}
+				t.Cols[0].Name, t.Cols[1].Name = "c0", "c1"
+				t.Cols[0].Nullable, t.Cols[1].Nullable = true, true
+				l := &Log{Cfg: cfg}
+				f := &LogFile{Name: "mysql-bin.000001"}
+				l.Files = []*LogFile{f}
+				for u, kind := range []string{"write", "update", "delete"} {
+					ev := &Ev{K: kind, TS: uint32(1600000000 + u), Tbl: t}
+					none := []Cell{{St: "absent"}, {St: "absent"}}
+					for r := 0; r < 2; r++ {
+						img := func() []Cell {
+							return []Cell{{St: "val", Bytes: genCell(e.R, &t.Cols[0], 0)}, {St: "val", Bytes: emptyValue(&t.Cols[1])}}
+						}
+						rp := RowPair{B: none, A: none}
+						if kind != "write" {
+							rp.B = img()
+						}
+						if kind != "delete" {
+							rp.A = img()
+						}
+						ev.Rows = append(ev.Rows, rp)
+					}
+					f.Units = append(f.Units, &Unit{U: "autorow", Evs: []*Ev{{K: "tablemap", TS: ev.TS, Tbl: t}, ev}})
+				}
+				l.Layout()
+				RunStreamScenario(e.Rec, &StreamScenario{ID: 5000 + li*100 + ci, Fam: "c13", Log: l, Start: l.Boundaries()[0], ServerID: 3,
+					Attempts: []AttemptPlan{defaultAttempt()}, Note: "ends-with-empty"})
+			}
+		}
+	}
 }
 
 // ---- C09: rows events, C15a: table maps, C16: headers and control events, C17a: validity gate ---------
@@ -870,6 +910,35 @@ func modeC09(e *Env) {
 			t := &Table{ID: uint64(1 + e.R.Intn(1<<20)), DB: "dd", Name: "tdec", Cols: []Col{colDecimal(p, sc), colInt("tiny", false)}}
 			t.Cols[0].Name, t.Cols[1].Name = "c0", "c1"
 			rowsRandom(e, cfgs[(p+sc)%len(cfgs)], t, 2, "decimal-all-ps")
+		}
+	}
+	// (a1b) the event ends with an empty value: every length-prefixed kind as the LAST cell of the LAST row, empty, so that
+	// its length prefix is the last thing in the event (a length rule that reads one byte too many runs off the end)
+	lastCols := []Col{colBlob(1), colBlob(2), colBlob(3), colBlob(4), colGeometry(1), colGeometry(2), colGeometry(3), colGeometry(4),
+		colVarchar(20), colVarchar(255), colVarchar(256), colVarchar(65535), colChar(10), colChar(255), colChar(256), colChar(1023)}
+	for li, last := range lastCols {
+		for _, kind := range []string{"write", "update", "delete"} {
+			for _, cfg := range []WireCfg{cfgs[(li*3)%len(cfgs)], cfgs[(li*3+7)%len(cfgs)]} {
+				t := &Table{ID: uint64(1 + e.R.Intn(1<<20)), DB: "de", Name: "tend", Cols: []Col{colInt("long", false), last}}
+				t.Cols[0].Name, t.Cols[1].Name = "c0", "c1"
+				all := []bool{true, true}
+				none := []Cell{{St: "absent"}, {St: "absent"}}
+				var rows []RowPair
+				for r := 0; r < 2; r++ {
+					img := func() []Cell {
+						return []Cell{{St: "val", Bytes: genCell(e.R, &t.Cols[0], 0)}, {St: "val", Bytes: emptyValue(&t.Cols[1])}}
+					}
+					rp := RowPair{B: none, A: none}
+					if kind != "write" {
+						rp.B = img()
+					}
+					if kind != "delete" {
+						rp.A = img()
+					}
+					rows = append(rows, rp)
+				}
+				rowsCase(e, cfg, t, kind, rows, nil, all, all, "ends-with-empty")
+			}
 		}
 	}
 	// (a2) long values: length-prefixed kinds with 2..4 length bytes and payloads around 255/256, 64K and beyond
